@@ -288,10 +288,10 @@ Section Proofs.
   Qed.
 
   (* one frame followed by anything: the decoder returns it and stops exactly at its end *)
-  Theorem decode_frame_encode f tail c e : wf_frame f ->
-    exists al r', decode_frame {| rest := frame_bytes f ++ tail; cuts := c; endk := e |} = (DOk f, al, r') /\ rest r' = tail.
+  Theorem decode_frame_encode f tail c e k : wf_frame f ->
+    exists al r', decode_frame {| rest := frame_bytes f ++ tail; cuts := c; endk := e; carry := k |} = (DOk f, al, r') /\ rest r' = tail.
   Proof.
-    intros Hwf. destruct (decode_frame_spec {| rest := frame_bytes f ++ tail; cuts := c; endk := e |}) as (r' & E & Hr & _).
+    intros Hwf. destruct (decode_frame_spec {| rest := frame_bytes f ++ tail; cuts := c; endk := e; carry := k |}) as (r' & E & Hr & _).
     cbn [rest] in *. destruct (parse_frame_encode f tail Hwf) as (al & Ep). rewrite Ep in *. cbn [fst snd] in *.
     exists al, r'. auto.
   Qed.
